@@ -1572,8 +1572,9 @@ def times_rise_transit_set(
     d2 = delta2.rad()
     hh0 = (sin(h) - sin(lat) * sin(d2)) / (cos(lat) * cos(d2))
     # Check if the body is circumpolar. In such case, there are no rising,
-    # transit nor setting times, and a tuple with None's is returned
-    if abs(hh0) > 1.0:
+    # transit nor setting times, and a tuple with None's is returned. A body
+    # that only touches the altitude (abs(hh0) == 1) does not cross it either
+    if abs(hh0) >= 1.0:
         return (None, None, None)
     hh0 = acos(hh0)
     hh0 = Angle(hh0, radians=True)
